@@ -296,9 +296,14 @@ func PolicyDoc(expiration time.Time, conds []string) string {
 // PostPolicyV4 builds the signed form of a browser POST upload (SigV4).
 func PostPolicyV4(c Cred, t time.Time, region, bucket, key string, expiration time.Time, data []byte) *PostForm {
 	cred := c.AK + "/" + ScopeV4(t, region)
+	keyCond := fmt.Sprintf(`["eq","$key","%s"]`, key)
+	if i := strings.Index(key, "${filename}"); i >= 0 {
+		// the file name is substituted by the server: only the part before it can be pinned
+		keyCond = fmt.Sprintf(`["starts-with","$key","%s"]`, key[:i])
+	}
 	doc := PolicyDoc(expiration, []string{
 		fmt.Sprintf(`{"bucket":"%s"}`, bucket),
-		fmt.Sprintf(`["eq","$key","%s"]`, key),
+		keyCond,
 		`{"x-amz-algorithm":"AWS4-HMAC-SHA256"}`,
 		fmt.Sprintf(`{"x-amz-credential":"%s"}`, cred),
 		fmt.Sprintf(`{"x-amz-date":"%s"}`, t.Format(ISO8601)),
